@@ -141,9 +141,380 @@ def gen_impexp_tables(outdir):
             coq_str(name), ";\n      ".join(fields), "; ".join(specials),
             "; ".join(coq_str(x) for x in ia), "; ".join(coq_str(b) for b in bases)))
     text = ("(* GENERATED by harness/gen_tables.py (gen_impexp_tables) from the current /repo/src — do not edit. *)\n"
-            "From Verif Require Import Lib.Base Lib.ImpExpTy.\n\n"
+            "From Coq Require Import String.\nFrom Verif Require Import Lib.Base Lib.ImpExpTy.\n"
+            "Open Scope string_scope.\n\n"
             "Definition impexp_tables : list (pystr * impexp_class) := [\n%s\n].\n" % ";\n".join(rows))
     emit(outdir, "ImpExpTables.v", text)
+
+
+# --------------------------------------------------------------------------------------------------
+# C15: PKCE transform tables of provider and relying party  ->  Gen/PkceTables.v
+# --------------------------------------------------------------------------------------------------
+def gen_pkce_tables(outdir):
+    """Gen/PkceTables.v: server_cc_methods (name -> TrPlain | TrSha bits, classified behaviourally on
+    probe strings against hashlib/base64 called directly), server_default_method (what post_authn_parse
+    records when the request names no method), client_cc_methods (name -> bits), the relying party's
+    default method and verifier length.  Types are in Lib/PkceTy.v."""
+    import base64
+    import hashlib
+    from idpyoidc.server.oauth2.add_on import pkce as sp
+    from idpyoidc.client.oauth2.add_on import pkce as cp
+    from idpyoidc.client import defaults as cd
+
+    probes = ["", "a", "abc-._~XYZ019", "x" * 200, "The quick brown fox"]
+    sizes = (1, 224, 256, 384, 512)
+
+    def ref(bits, s):
+        h = hashlib.new("sha%d" % bits, s.encode("ascii")).digest()
+        return base64.urlsafe_b64encode(h).decode("ascii").rstrip("=")
+
+    if not isinstance(sp.CC_METHOD, dict):
+        raise Untranslatable("server CC_METHOD is not a dict")
+    srows = []
+    for name, f in sp.CC_METHOD.items():
+        if not isinstance(name, str):
+            raise Untranslatable("server CC_METHOD key %r" % (name,))
+        try:
+            outs = [f(p) for p in probes]
+        except Exception as e:
+            raise Untranslatable("server CC_METHOD[%r] raises %r on an ASCII probe" % (name, e))
+        kind = None
+        if outs == probes:
+            try:
+                if f("å€") == "å€":
+                    kind = "TrPlain"
+            except Exception:
+                pass
+        else:
+            for bits in sizes:
+                if outs == [ref(bits, p) for p in probes]:
+                    try:
+                        f("å")
+                    except UnicodeEncodeError:
+                        kind = "(TrSha %d%%N)" % bits
+                    except Exception:
+                        pass
+        if kind is None:
+            raise Untranslatable("server CC_METHOD[%r] is neither the identity nor b64url_nopad(shaN(ascii))" % name)
+        srows.append("(%s, %s)" % (coq_str(name), kind))
+
+    class _Ctx:
+        pass
+    ctx = _Ctx()
+    ctx.cdb = {"c": {}}
+    ctx.add_on = {"pkce": {"essential": False, "code_challenge_methods": sp.CC_METHOD}}
+    req = {"code_challenge": "x"}
+    out = sp.post_authn_parse(req, "c", ctx)
+    if not isinstance(out, dict) or not isinstance(out.get("code_challenge_method"), str):
+        raise Untranslatable("post_authn_parse no longer records a default code_challenge_method")
+    sdef = out["code_challenge_method"]
+
+    if not isinstance(cd.CC_METHOD, dict):
+        raise Untranslatable("client CC_METHOD is not a dict")
+    crows = []
+    for name, h in cd.CC_METHOD.items():
+        bits = None
+        for b in sizes:
+            try:
+                if all(h(p.encode()).digest() == hashlib.new("sha%d" % b, p.encode()).digest() for p in probes):
+                    bits = b
+            except Exception as e:
+                raise Untranslatable("client CC_METHOD[%r] raises %r" % (name, e))
+        if bits is None or not isinstance(name, str):
+            raise Untranslatable("client CC_METHOD[%r] is not a hashlib shaN constructor" % (name,))
+        crows.append("(%s, %d%%N)" % (coq_str(name), bits))
+
+    class _CState:
+        item = None
+
+        def update(self, key, item):
+            self.item = item
+    cctx = _Ctx()
+    cctx.add_on = {"pkce": {}}
+    cctx.cstate = _CState()
+
+    class _Svc:
+        def upstream_get(self, what, *a):
+            return cctx
+    ra, _ = cp.add_code_challenge({"state": "s"}, _Svc())
+    cdef = ra.get("code_challenge_method")
+    try:
+        clen = len(cctx.cstate.item["code_verifier"])
+    except Exception:
+        raise Untranslatable("add_code_challenge no longer stores code_verifier in the state item")
+    if not isinstance(cdef, str):
+        raise Untranslatable("add_code_challenge: no default code_challenge_method")
+    text = ("(* GENERATED by harness/gen_tables.py (gen_pkce_tables) from the current /repo/src — do not edit. *)\n"
+            "From Verif Require Import Lib.Base Lib.PkceTy.\n\n"
+            "Definition server_cc_methods : list (pystr * tr_kind) := [%s].\n"
+            "Definition server_default_method : pystr := %s.\n"
+            "Definition client_cc_methods : list (pystr * N) := [%s].\n"
+            "Definition client_default_method : pystr := %s.\n"
+            "Definition client_default_length : N := %d%%N.\n"
+            % ("; ".join(srows), coq_str(sdef), "; ".join(crows), coq_str(cdef), clen))
+    emit(outdir, "PkceTables.v", text)
+
+
+# --------------------------------------------------------------------------------------------------
+# C10/C11: every Message subclass: c_param / c_allowed_values / c_default / verify() chaining
+#          -> Gen/Schema.v      (vocabulary: Lib/MsgSchema.v)
+# --------------------------------------------------------------------------------------------------
+def gen_schema(outdir):
+    """Gen/Schema.v: `all_classes : list mclass` — for EVERY subclass of idpyoidc.message.Message
+    found after importing every module of the idpyoidc package: qualified name, bases, the parameter
+    table (name, value type, required, serializer id, deserializer id, null allowed; unknown types
+    and (de)serializers are kept as explicit opaque kinds, never dropped), c_allowed_values,
+    c_default and - by ast inspection of the class's own verify() - whether it overrides verify,
+    whether every normal return path of the override has called an ancestor's verify, and where."""
+    import ast
+    import importlib
+    import inspect
+    import pkgutil
+    import textwrap
+    import typing
+
+    import idpyoidc
+    from idpyoidc.message import Message
+
+    # modules of the package that do not import on the unchanged tree (pinned; anything else that
+    # stops importing is a broken translation, because its classes would silently disappear)
+    KNOWN_UNIMPORTABLE = {"idpyoidc.client.oauth2.add_on.identity_assurance"}
+    failed = []
+    for mi in pkgutil.walk_packages(idpyoidc.__path__, "idpyoidc."):
+        try:
+            importlib.import_module(mi.name)
+        except Exception as e:   # noqa
+            if mi.name not in KNOWN_UNIMPORTABLE:
+                failed.append("%s (%s: %s)" % (mi.name, type(e).__name__, str(e)[:80]))
+    if failed:
+        raise Untranslatable("modules of the package no longer import: " + "; ".join(failed))
+
+    def qn(c):
+        return c.__module__ + "." + c.__qualname__
+
+    def subs(c, acc):
+        for s in c.__subclasses__():
+            if s not in acc:
+                acc.append(s)
+                subs(s, acc)
+        return acc
+
+    found = [c for c in subs(Message, []) if c.__module__.startswith("idpyoidc.")]
+    by_name = {}
+    for c in found:
+        if qn(c) in by_name:
+            raise Untranslatable("two Message subclasses share the name %s" % qn(c))
+        by_name[qn(c)] = c
+    classes = sorted(by_name.items())
+    if len(classes) < 60:
+        raise Untranslatable("only %d Message subclasses discovered" % len(classes))
+
+    SER = {"idpyoidc.message.list_serializer": "SList", "idpyoidc.message.sp_sep_list_serializer": "SSpSep",
+           "idpyoidc.message.json_serializer": "SJson", "idpyoidc.message.msg_ser": "SMsg",
+           "idpyoidc.message.msg_list_ser": "SMsgList", "idpyoidc.message.oidc.msg_ser_json": "SMsgJson"}
+    DESER = {"idpyoidc.message.list_deserializer": "DList", "idpyoidc.message.sp_sep_list_deserializer": "DSpSep",
+             "idpyoidc.message.json_deserializer": "DJson", "idpyoidc.message.msg_deser": "DMsg",
+             "idpyoidc.message.msg_list_deser": "DMsgList", "idpyoidc.message.oidc.dict_deser": "DDictText"}
+
+    def fn_id(f, table, none, opaque, where):
+        if f is None:
+            return none
+        if not callable(f):
+            raise Untranslatable("%s: (de)serializer %r is not callable" % (where, f))
+        name = "%s.%s" % (getattr(f, "__module__", "?"), getattr(f, "__qualname__", repr(f)))
+        return table.get(name) or "(%s %s)" % (opaque, coq_str(name))
+
+    def vtype(t):
+        if t is str:
+            return "TStr"
+        if t is int:
+            return "TInt"
+        if t is bool:
+            return "TBool"
+        if t is dict:
+            return "TDict"
+        if t is typing.Any:
+            return "TAny"
+        if isinstance(t, type) and issubclass(t, Message):
+            return "(TMsg %s)" % coq_str(qn(t))
+        return "(TOpaqueTy %s)" % coq_str(repr(t)[:60])
+
+    def ptype(t):
+        if isinstance(t, list):
+            if len(t) == 1:
+                return "(PList %s)" % vtype(t[0])
+            return "(PScalar (TOpaqueTy %s))" % coq_str(repr(t)[:60])
+        return "(PScalar %s)" % vtype(t)
+
+    def pyval(v, where):
+        if v is None:
+            return "VNone"
+        if v is True or v is False:
+            return "(VBool %s)" % ("true" if v else "false")
+        if isinstance(v, int):
+            return "(VInt (%d)%%Z)" % v
+        if isinstance(v, str):
+            return "(VStr %s)" % coq_str(v)
+        if isinstance(v, (list, tuple)):
+            return "(VList [%s])" % "; ".join(pyval(x, where) for x in v)
+        if isinstance(v, dict) and all(isinstance(k, str) for k in v):
+            return "(VDict [%s])" % "; ".join("(%s, %s)" % (coq_str(k), pyval(x, where)) for k, x in v.items())
+        raise Untranslatable("%s: value %r has no pyval" % (where, v))
+
+    # ---- verify() chaining, by ast ----
+    def chain_info(cls):
+        """(overrides, chains, position).  chains = on every path through the override that ends in a
+        normal return (explicit or by falling off the end) a call `super().verify(...)`,
+        `super(X, self).verify(...)` (X the class or an ancestor) or `<Ancestor>.verify(self, ...)` has
+        been executed.  Paths ending in `raise` refuse the message and need no chaining."""
+        if "verify" not in cls.__dict__:
+            return False, True, "ChainNowhere"
+        f = cls.__dict__["verify"]
+        try:
+            src = textwrap.dedent(inspect.getsource(f))
+            fn = ast.parse(src).body[0]
+        except Exception as e:
+            raise Untranslatable("%s.verify: source not available (%s)" % (qn(cls), e))
+        if not isinstance(fn, ast.FunctionDef) or not fn.args.args or fn.args.args[0].arg != "self":
+            raise Untranslatable("%s.verify is not a plain method" % qn(cls))
+        glob = getattr(f, "__globals__", {})
+        ancestors = [b for b in cls.__mro__[1:] if b is not object and hasattr(b, "verify")]
+
+        def is_chain_call(n):
+            if not (isinstance(n, ast.Call) and isinstance(n.func, ast.Attribute) and n.func.attr == "verify"):
+                return False
+            v = n.func.value
+            if isinstance(v, ast.Call) and isinstance(v.func, ast.Name) and v.func.id == "super":
+                if not v.args:
+                    return True
+                if (len(v.args) == 2 and isinstance(v.args[0], ast.Name) and isinstance(v.args[1], ast.Name)
+                        and v.args[1].id == "self"):
+                    x = glob.get(v.args[0].id)
+                    return isinstance(x, type) and x in cls.__mro__
+                return False
+            if isinstance(v, ast.Name) and n.args and isinstance(n.args[0], ast.Name) and n.args[0].id == "self":
+                x = glob.get(v.id)
+                return isinstance(x, type) and x in ancestors
+            return False
+
+        def own_exprs(st):
+            """expression nodes evaluated by the statement itself (not by nested blocks)"""
+            out = []
+            for field, val in ast.iter_fields(st):
+                if field in ("body", "orelse", "finalbody", "handlers"):
+                    continue
+                vals = val if isinstance(val, list) else [val]
+                for x in vals:
+                    if isinstance(x, ast.AST):
+                        out.append(x)
+            return out
+
+        def calls(st):
+            return any(is_chain_call(n) for e in own_exprs(st) for n in ast.walk(e))
+
+        returns = []   # chained? at every normal return
+
+        def block(stmts, states):
+            """states: set of booleans 'an ancestor's verify has been called' possible on entry;
+            returns the set possible when falling out of the block (empty = cannot fall through)."""
+            for st in stmts:
+                if not states:
+                    break
+                if isinstance(st, (ast.FunctionDef, ast.AsyncFunctionDef, ast.ClassDef, ast.Lambda)):
+                    continue
+                if isinstance(st, ast.Return):
+                    c = calls(st)
+                    returns.extend([True] if c else list(states))
+                    states = set()
+                elif isinstance(st, ast.Raise):
+                    states = set()
+                elif isinstance(st, ast.If):
+                    s0 = {True} if calls(st) else set(states)
+                    states = block(st.body, set(s0)) | block(st.orelse, set(s0))
+                elif isinstance(st, (ast.For, ast.While, ast.AsyncFor)):
+                    s0 = {True} if calls(st) else set(states)
+                    after_body = block(st.body, set(s0))
+                    states = block(st.orelse, s0 | after_body) if st.orelse else (s0 | after_body)
+                elif isinstance(st, (ast.With, ast.AsyncWith)):
+                    s0 = {True} if calls(st) else set(states)
+                    states = block(st.body, s0)
+                elif isinstance(st, ast.Try) or st.__class__.__name__ == "TryStar":
+                    body_out = block(st.body, set(states))
+                    # an exception may leave the body at any point: handlers may start un-chained
+                    # whenever that was possible on entry
+                    h_in = set(states) | body_out
+                    outs = block(st.orelse, set(body_out)) if st.orelse else set(body_out)
+                    for h in st.handlers:
+                        outs |= block(h.body, set(h_in))
+                    states = block(st.finalbody, outs) if st.finalbody else outs
+                elif isinstance(st, ast.Match):
+                    raise Untranslatable("%s.verify uses match: not analysed" % qn(cls))
+                else:
+                    if calls(st):
+                        states = {True}
+            return states
+
+        body = list(fn.body)
+        if body and isinstance(body[0], ast.Expr) and isinstance(getattr(body[0], "value", None), ast.Constant) \
+                and isinstance(body[0].value.value, str):
+            body = body[1:]
+        fall = block(body, {False})
+        exits = returns + list(fall)
+        chains = bool(exits) and all(exits)
+        if not any(is_chain_call(n) for n in ast.walk(fn)):
+            pos = "ChainNowhere"
+        elif body and calls(body[0]) and not isinstance(body[0], (ast.If, ast.For, ast.While, ast.Try, ast.With)):
+            pos = "ChainFirst"
+        elif body and isinstance(body[-1], ast.Return) and calls(body[-1]):
+            pos = "ChainLast"
+        else:
+            pos = "ChainMiddle"
+        return True, chains, pos
+
+    rows = []
+    nparams = 0
+    for name, c in classes:
+        spec = c.c_param
+        if not isinstance(spec, dict):
+            raise Untranslatable("%s.c_param is not a dict" % name)
+        ps = []
+        for pname, ent in spec.items():
+            where = "%s.c_param[%r]" % (name, pname)
+            if not isinstance(pname, str):
+                raise Untranslatable("%s: parameter name is not a str" % where)
+            if not (isinstance(ent, tuple) and len(ent) == 5):
+                raise Untranslatable("%s: entry %r is not a 5-tuple" % (where, ent))
+            typ, req, ser, deser, null = ent
+            if not isinstance(req, bool) or not isinstance(null, bool):
+                raise Untranslatable("%s: required / null-allowed flags are not booleans" % where)
+            ps.append("mkP %s %s %s %s %s %s" % (
+                coq_str(pname), ptype(typ), "true" if req else "false",
+                fn_id(ser, SER, "SNone", "SOpaque", where), fn_id(deser, DESER, "DNone", "DOpaque", where),
+                "true" if null else "false"))
+            nparams += 1
+        allowed = c.c_allowed_values
+        if not isinstance(allowed, dict):
+            raise Untranslatable("%s.c_allowed_values is not a dict" % name)
+        al = []
+        for k, vs in allowed.items():
+            if not isinstance(k, str) or not isinstance(vs, (list, tuple)):
+                raise Untranslatable("%s.c_allowed_values[%r] = %r" % (name, k, vs))
+            al.append("(%s, [%s])" % (coq_str(k), "; ".join(pyval(v, "%s.c_allowed_values[%r]" % (name, k)) for v in vs)))
+        dflt = c.c_default
+        if not isinstance(dflt, dict) or not all(isinstance(k, str) for k in dflt):
+            raise Untranslatable("%s.c_default = %r" % (name, dflt))
+        df = ["(%s, %s)" % (coq_str(k), pyval(v, "%s.c_default[%r]" % (name, k))) for k, v in dflt.items()]
+        bases = [qn(b) for b in c.__mro__[1:] if b is not object and isinstance(b, type) and issubclass(b, Message)]
+        ov, ch, pos = chain_info(c)
+        rows.append("  mkC %s\n    [%s]\n    [%s]\n    [%s]\n    [%s]\n    %s %s %s" % (
+            coq_str(name), "; ".join(coq_str(b) for b in bases),
+            ";\n     ".join(ps), ";\n     ".join(al), "; ".join(df),
+            "true" if ov else "false", "true" if ch else "false", pos))
+    text = ("(* GENERATED by harness/gen_tables.py (gen_schema) from the current /repo/src - do not edit.\n"
+            "   %d Message subclasses, %d declared parameters. *)\n"
+            "From Verif Require Import Lib.Base Lib.MsgSchema.\n\n"
+            "Definition all_classes : list mclass := [\n%s\n].\n" % (len(classes), nparams, ";\n".join(rows)))
+    emit(outdir, "Schema.v", text)
 
 
 # --------------------------------------------------------------------------------------------------
@@ -153,6 +524,8 @@ def main():
     # (generator function, file it writes) — builders: append one line each
     GENERATORS = [
         (gen_impexp_tables, "ImpExpTables.v"),
+        (gen_pkce_tables, "PkceTables.v"),
+        (gen_schema, "Schema.v"),
     ]
     rc = 0
     for fn, fname in GENERATORS:
